@@ -12,7 +12,7 @@ LEVEL = "proof"
 ME = "alpha_g_physics::MainEvent::"
 ASSEMBLY = [ME + "try_from_banks", ME + "timestamp"]
 KERNELS = [ME + "avalanches", ME + "vertex"]
-CENSUS = os.path.join(build.VERIF, "tables", "c09_census.json")
+DECIDED = os.path.join(build.VERIF, "tables", "c09_decided.json")
 
 FLOAT_SOURCES = ("PartialOrd::partial_cmp", "compute::cholesky", "solve::", "Executor::", "NelderMead::", "Iterator::reduce", "MinMaxResult::",
                  "Iterator::min_by", "Iterator::max_by", "Option::<&T>::copied(Iterator::min_by", "Result::<T, E>::unwrap(Executor", "IterState")
@@ -29,6 +29,30 @@ def ob_class(o):
     if o.kind == "panic":
         return "float" if "nan" in (o.how or "").lower() else "int"
     return "int"
+
+
+INDEX_CALLS = ("Index::index", "IndexMut::index_mut", "Vec::<T, A>::swap_remove", "Vec::<T, A>::remove", "Vec::<T, A>::split_off",
+               "<impl [T]>::split_at", "<impl str>::split_at", "<impl [T]>::copy_from_slice", "Vec::<T>::with_capacity")
+
+
+def census_key(o):
+    """coarse class of an undischarged obligation: swapping one indexing API for another, or `a - b` for `a - b - c`
+    written differently, must not change the census; a *new* index / arithmetic / loop site must"""
+    if o.kind == "loop":
+        return "loop/int"
+    if o.kind == "panic":
+        return "panic/" + ob_class(o)
+    if o.kind == "assert":
+        if o.desc == "bounds":
+            return "index/int"
+        return "arith/int"
+    if o.desc in INDEX_CALLS:
+        return "index/int"
+    if o.desc.startswith("int-op:") or o.desc == "Iterator::sum":
+        return "arith/int"
+    if o.desc.endswith(("::unwrap", "::expect")):
+        return "unwrap/" + ob_class(o)
+    return "other/int"
 
 
 def physics_scope(prog, entries, exclude=()):
@@ -139,27 +163,34 @@ def uses_of_cached(b, l, frm, _depth=[0]):
         _depth[0] -= 1
 
 
+def top_fn(prog, p):
+    b = prog.bodies[p]
+    while b.kind == "Closure" and b.j.get("parent") in prog.bodies and b.j["parent"] != b.path:
+        b = prog.bodies[b.j["parent"]]
+    return b.path
+
+
 def kernel_census(prog, sc):
-    """{fn: {class-key: count}} of OPEN obligations, plus totals"""
+    """per top-level kernel function (closures folded in): obligations, OPEN ones by coarse class, first OPEN site"""
     out = {}
-    tot = collections.Counter()
     for p in sc.bodies:
         b = prog.bodies[p]
+        f = out.setdefault(top_fn(prog, p), {"obligations": 0, "open": {}, "where": {}, "how": {}})
         try:
             ctx = oblig.Ctx(prog, b)
             obs = oblig.collect(ctx)
         except RecursionError:
-            out.setdefault(p, {})["analysis:recursion/int"] = 1
+            f["open"]["other/int"] = f["open"].get("other/int", 0) + 1
             continue
         for o in obs:
             oblig.discharge(ctx, o)
-            tot[o.verdict] += 1
+            f["obligations"] += 1
             if o.verdict == "OPEN":
-                k = "%s:%s/%s" % (o.kind, o.desc if o.kind != "loop" else "loop", ob_class(o))
-                out.setdefault(p, {})
-                out[p][k] = out[p].get(k, 0) + 1
-                out[p].setdefault("_where", {}).setdefault(k, o.where)
-    return out, tot
+                k = census_key(o)
+                f["open"][k] = f["open"].get(k, 0) + 1
+                f["where"].setdefault(k, o.where)
+                f["how"].setdefault(k, "%s `%s`: %s" % (o.kind, o.desc, (o.how or "")[:200]))
+    return out
 
 
 def run(prog, tier, res):
@@ -174,7 +205,7 @@ def run(prog, tier, res):
     R4 = res.rule("C09.R4", "assembly: loops iterate finite sources", 2)
     R5 = res.rule("C09.R5", "assembly: every external callee has a panic rule or an audited-total entry", 10)
     R6 = res.rule("C09.R6", "detector-crate functions reached from the event pipeline are inside C01's scope", 50)
-    R7 = res.rule("C09.R7", "kernels: undischarged integer/index obligations per function do not exceed the committed census", 20)
+    R7 = res.rule("C09.R7", "kernels: every function on the committed decided list (all obligations discharged, closures included) is still fully discharged", 5)
     R8 = res.rule("C09.R8", "result discipline of try_from_banks: every Result is `?`-propagated, returned or matched", 10)
     if tier == "thorough":
         oblig.PATH_LIMIT[0] = 4096
@@ -191,34 +222,36 @@ def run(prog, tier, res):
         else:
             res.violate(R6, p, "scope", "detector function %s is reached from the event pipeline but is outside C01's scope" % short(p), prog.bodies[p].where())
     # kernels
-    with open(CENSUS) as fh:
-        census = json.load(fh)["functions"]
-    got, tot = kernel_census(prog, sk)
-    n_int = n_float = 0
+    with open(DECIDED) as fh:
+        decided = json.load(fh)["functions"]
+    got = kernel_census(prog, sk)
+    n_int = n_float = n_obl = n_dis = 0
+    undecided = {}
     for p in sk.bodies:
         res.functions.add(p)
-        g = got.get(p, {})
-        allowed = census.get(p, {})
-        bad = False
-        for k, n in g.items():
-            if k == "_where":
-                continue
-            if k.endswith("/float"):
-                n_float += n
-                continue
-            n_int += n
-            if n > allowed.get(k, 0):
-                bad = True
-                res.violate(R7, p, k, "%s has %d undischarged `%s` obligation(s), the census of undecidable sites allows %d — a new integer/index/loop panic "
-                            "path that the analysis cannot exclude" % (short(p), n, k.rsplit("/", 1)[0], allowed.get(k, 0)), g.get("_where", {}).get(k, prog.bodies[p].where()), kind="undischarged")
-        if not bad:
-            res.hit(R7)
+    for f, g in sorted(got.items()):
+        n_obl += g["obligations"]
+        n_open = sum(g["open"].values())
+        n_dis += g["obligations"] - n_open
+        fl = sum(n for k, n in g["open"].items() if k.endswith("/float"))
+        n_float += fl
+        n_int += n_open - fl
+        if f in decided:
+            if n_open == 0:
+                res.hit(R7)
+            for k, n in sorted(g["open"].items()):
+                res.violate(R7, f, k, "%s was fully discharged and now has %d undischarged %s obligation(s): %s" % (
+                    short(f), n, k.split("/")[0], g["how"].get(k, "")), g["where"].get(k, prog.bodies[f].where()), kind="undischarged")
+        elif n_open:
+            undecided[short(f)] = dict(g["open"])
+    # a decided function that disappeared (renamed/removed) is not an alarm; the floor on R7 guards against vacuity
     result_discipline(prog, res, R8, ME + "try_from_banks")
-    res.extra["kernel_scope"] = {"functions": len(sk.bodies), "obligations": sum(tot.values()), "discharged": tot.get("PROVED", 0),
-                                 "undecided_integer_sites": n_int, "undecided_float_sites": n_float}
-    res.trusted = ["C01 for the detector-crate callees", "rustc MIR (dev profile)", "audited-total list panicfree.TOTAL", "tables/c09_census.json lists the kernel sites the analysis cannot decide (not findings: no failing input is known for them)"] + \
+    res.extra["kernel_scope"] = {"bodies": len(sk.bodies), "top_level_functions": len(got), "decided_functions": sorted(short(f) for f in decided if f in got),
+                                 "obligations": n_obl, "discharged": n_dis, "undecided_integer_sites": n_int, "undecided_float_sites": n_float,
+                                 "undecided_by_function": undecided}
+    res.trusted = ["C01 for the detector-crate callees", "rustc MIR (dev profile)", "audited-total list panicfree.TOTAL", "tables/c09_decided.json lists the kernel functions that are fully discharged; the others are reported as a census of undecided sites (not findings: no failing input is known for them)"] + \
                   ["audited implication `%s`: %s" % (k, audited.STATEMENTS.get(k, "")) for k in sorted(used)]
     res.assumptions = ["lazy_static initialisers (embedded calibration/drift tables) are census only"]
     res.undecided = ["float pipeline: Cholesky/solve unwraps, NaN asserts, partial_cmp().unwrap(), argmin run().unwrap() (%d sites)" % n_float,
-                     "kernel integer/index sites listed in tables/c09_census.json (%d sites): loop-carried indices, table-shape dependent lookups" % n_int]
+                     "%d kernel integer/index/loop sites in functions outside the decided list (evidence: undecided_by_function): loop-carried indices, table-shape dependent lookups" % n_int]
     res.sample({"assembly_bodies": len(sa.bodies), "kernel_bodies": len(sk.bodies), "detector_bodies_delegated": len(set(det_a) | set(det_k))})
